@@ -274,7 +274,6 @@ Lemma wf_case_ops c :
 Proof.
   unfold wf_case. intros H.
   apply andb_true_iff in H. destruct H as [H _].
-  apply andb_true_iff in H. destruct H as [H _].
   apply andb_true_iff in H. destruct H as [Hall Hlen].
   apply Nat.leb_le in Hlen. rewrite forallb_forall in Hall.
   split; [apply nth_In; lia|]. split; [apply nth_In; lia|]. exact Hall.
@@ -297,25 +296,3 @@ Lemma holds_pure_model ops :
              (Vl (fun o => Vl VZ (rank_counts o)) ops) (Vl (fun o => Vl VZ (rank_counts o)) ops)
   = true.
 Proof. unfold holds_pure. rewrite !V_eqb_refl. reflexivity. Qed.
-
-(* the faithful model meets the oracle: binary operators on operands of one arity, a's rank
-   compressed, and purity *)
-Theorem c04_model_holds_core c :
-  wf_case c = true -> o_U (op_a c) = false ->
-  c04_holds_core c (c04_model c) = true.
-Proof.
-  intros Hwf HU. unfold c04_holds_core, c04_model.
-  rewrite holds_pure_model, andb_true_r.
-  destruct (k_mixed c) eqn:Hm; [reflexivity|].
-  destruct (wf_case_ops c Hwf) as [Ia [Ib Hall]].
-  pose proof (Hall _ Ia) as Wa. pose proof (Hall _ Ib) as Wb.
-  pose proof (wf_case_arity c Hwf Hm) as Har.
-  unfold holds_binary.
-  rewrite (and_holds _ _ Wa Wb (Har _ _ Ia Ib)).
-  assert (Eu : forall r, check_items (exp_and (op_b c) (op_a c)) (universe (op_a c) ++ universe (op_b c)) r
-                         = check_items (exp_and (op_b c) (op_a c)) (universe (op_b c) ++ universe (op_a c)) r).
-  { intros r. unfold check_items. destruct (dec_items r); [|reflexivity].
-    f_equal. rewrite !forallb_app. apply andb_comm. }
-  rewrite Eu, (and_holds _ _ Wb Wa (Har _ _ Ib Ia)).
-  rewrite (or_holds _ _ Wa Wb), (xor_holds _ _ Wa Wb), (sub_holds _ _ Wa Wb HU). reflexivity.
-Qed.
